@@ -64,7 +64,7 @@ inductive Op where
   | eigAccess                                   -- property access eigvals / eigvecs / propagators
   | totPropAccess
   | cleanup (m : Mode)
-  | infidelity (g : Grid) (tracelessBasis : Bool) (correlations : Bool)
+  | infidelity (g : Grid) (tracelessBasis : Bool) (correlations : Bool) (identityComponent : Bool)
   | decayAmps (g : Grid) (correlations : Bool) (ci : Bool)
   | cumulant (g : Grid) (secondOrder : Bool)
 deriving DecidableEq, Repr
@@ -244,11 +244,13 @@ def getPhases (g : Grid) (s : Obj) : Obj × Ret :=
     (s, retOfTag s.phases)
 
 /-- `get_filter_function_derivative`: control matrix first (with intermediates), then the cached
-`n_opers_transformed` / `first_order_integral` are read -/
+`n_opers_transformed` / `first_order_integral` are read; `self.propagators / eigvals / eigvecs` are
+read for the gradient routine (the properties diagonalise when the control matrix came from the
+cache of an undiagonalised pulse, e.g. a concatenation) -/
 def deriv (g : Grid) (s : Obj) : Obj × Ret :=
   let (s, r) := getCM g true s
   let fr := match s.iFoInt with | some h => h == g | none => true
-  (s, match r with | .val h f => .val h (f && fr) | r => r)
+  (needEig s, match r with | .val h f => .val h (f && fr) | r => r)
 
 def totPropLGet (s : Obj) : Obj :=
   if s.totPropL then s else { needTotProp s with totPropL := true }
@@ -265,6 +267,20 @@ def decayAmps (g : Grid) (correlations ci : Bool) (s : Obj) : Obj × Ret :=
     | none => go
   else if s.ffGen.isSome then getFF g .generalized false false s  -- (`cache_intermediates` is not passed on)
   else getCM g ci s
+
+/-- `infidelity(…, which='correlations')` after the frequency check.  Non-traceless basis: the
+pulse-correlation control matrix is contracted with the trace tensor (nothing is written).
+Traceless basis: the pulse-correlation filter function (cached from the control matrix when
+missing); the identity component of noise operators with a trace (`idc`) is subtracted with the
+pulse-correlation control matrix, and cannot be when only the filter function is left (e.g. after
+`cleanup('greedy')`): `CalculationError`. -/
+def infidelityCorr (tl idc : Bool) (s : Obj) : Obj × Ret :=
+  if tl then
+    ((getPcFF .fidelity s).1,
+     match (getPcFF .fidelity s).2 with
+     | .val h f => if idc && s.cmPc.isNone then .calcError else .val h f
+     | r => r)
+  else (s, match s.cmPc with | some h => .val h true | none => .calcError)
 
 def step (s : Obj) : Op → Obj × Ret
   | .diagonalize => (diagonalize s, .unit)
@@ -284,11 +300,11 @@ def step (s : Obj) : Op → Obj × Ret
   | .eigAccess => (needEig s, .plain)
   | .totPropAccess => (needTotProp s, .plain)
   | .cleanup m => (cleanup m s, .unit)
-  | .infidelity g tl corr =>
+  | .infidelity g tl corr idc =>
     if corr then
       match s.omega with
-      | some h => if h == g then getPcFF .fidelity s else (s, .valueError)
-      | none => getPcFF .fidelity s
+      | some h => if h == g then infidelityCorr tl idc s else (s, .valueError)
+      | none => infidelityCorr tl idc s
     else if tl then
       -- traceless basis: fidelity filter function, then the control matrix (to subtract the
       -- identity component; a cache hit unless the control matrix had been cleaned up)
@@ -308,7 +324,7 @@ def step (s : Obj) : Op → Obj × Ret
 
 /-- the grid an operation requests a frequency dependent value for (if any) -/
 def Op.grid : Op → Option Grid
-  | .getCM g _ | .getFF g _ _ _ | .getPhases g | .deriv g | .infidelity g _ false
+  | .getCM g _ | .getFF g _ _ _ | .getPhases g | .deriv g | .infidelity g _ false _
   | .decayAmps g false _ | .cumulant g _ => some g
   | _ => none
 
@@ -398,7 +414,8 @@ def parseOp (t : String) : Option Op :=
   | ["totPropAccess"] => some .totPropAccess
   | ["cleanup", m] => some (.cleanup (if m == "conservative" then .conservative
       else if m == "greedy" then .greedy else if m == "freq" then .freq else .all))
-  | ["infidelity", g, tl, corr] => some (.infidelity g.toNat! (parseB tl) (parseB corr))
+  | ["infidelity", g, tl, corr, idc] =>
+    some (.infidelity g.toNat! (parseB tl) (parseB corr) (parseB idc))
   | ["decayAmps", g, corr, ci] => some (.decayAmps g.toNat! (parseB corr) (parseB ci))
   | ["cumulant", g, so] => some (.cumulant g.toNat! (parseB so))
   | _ => none
